@@ -460,17 +460,19 @@ def quiesce():
     import subprocess
 
     deadline = time.time() + QUIESCE_S
-    reap = getattr(subprocess, "_cleanup", None)
+    reap = getattr(subprocess, "_cleanup", None) or (lambda: None)
     while True:
         gc.collect()
-        if reap is not None:
-            # children of already collected Popen objects are reaped by CPython itself on the next
-            # Popen(): a pending finalizer like any other, so run it now
-            reap()
+        # children of already collected Popen objects are reaped by CPython itself on the next
+        # Popen(): a pending finalizer like any other, so run it now
+        reap()
+        while (threading.active_count() > 1 or any(s != "Z" for _p, s in _children())) and time.time() < deadline:
+            time.sleep(0.004)
+        gc.collect()
+        reap()
         busy = threading.active_count() > 1 or any(s != "Z" for _p, s in _children())
         if not busy or time.time() >= deadline:
             return
-        time.sleep(0.005)
 
 
 def ctrl_c_probe():
@@ -695,6 +697,9 @@ def warm_up():
         ctypes.CDLL("libc.so.6").malloc_trim(0)
     except Exception:  # noqa: BLE001
         pass
+    # everything alive now stays alive for the whole run (the warm session): keep it out of the
+    # per-case collections, which then only look at what the command line created
+    gc.freeze()
 
 
 def _session_pids(sid):
